@@ -28,7 +28,7 @@ class C15(Prop):
         'C15: the 65536-entry half table is checked by kernel evaluation (decide +kernel) in 64 shards; no native_decide']
     rule = ('all 65536 half patterns (decode, re-encode); singles: every exponent x boundary mantissas, strided blocks of 65536 consecutive patterns '
             '(every block = all 2^32 in thorough) by digest on C and generated model, each also through cbor_encode_half (totality under UBSan); '
-            'doubles: every exponent x boundary mantissas + random; non-trivial = not a zero pattern; distinct by (op, pattern, result)')
+            'doubles: every exponent x boundary mantissas + random; the same patterns of all three widths through the item path (cbor_load -> item -> dump -> cbor_serialize); non-trivial = not a zero pattern; distinct by (op, pattern, result)')
 
     def singles(self, tier, rng):
         out = set()
@@ -120,6 +120,39 @@ class C15(Prop):
             exp = 'fb%016x' % (0x7ff8000000000000 if is_nan64(b) else b)
             if o2.split()[:2] != ['9', exp]:
                 fails.append({'input': l2, 'expected': '9 ' + exp, 'observed': o2, 'why': 'double not re-encoded to its bytes / canonical NaN'})
+        # the same patterns through the ITEM path: cbor_load builds an item at the recorded width (builder callback -> cbor_set_float*), the item
+        # is read back (dump: h / s / d with the stored bits) and serialized again: exact bits in, identical bytes out, NaN canonical
+        il = []
+        halves = list(range(0, 65536, 1 if tier == 'thorough' else 13)) + [0x7c00, 0xfc00, 0x7e00, 0xfe00, 0x7c01, 0xfc01, 0x0001, 0x8001, 0x03ff, 0x0400, 0x7bff, 0x8000]
+        Ss = S[:: 1 if tier == 'thorough' else 5]; Ds = D[:: 1 if tier == 'thorough' else 3]
+        for h in halves: il.append(('h', h, 'LOAD f9%04x' % h))
+        for b in Ss: il.append(('s', b, 'LOAD fa%08x' % b))
+        for b in Ds: il.append(('d', b, 'LOAD fb%016x' % b))
+        io, rc, err = ctx.run_c([l for _, _, l in il])
+        if rc != 0:
+            i, l, e = core.first_crash_line(ctx.harness, [l for _, _, l in il])
+            return fails + [{'input': l, 'expected': 'an item', 'observed': 'implementation aborted (UBSan/ASan)', 'why': e[-600:]}]
+        for (k, b, l), o in zip(il, io):
+            ctx.count(l, o); ctx.bump('item_' + k)
+            w = o.split()
+            if k == 'h':
+                nan = is_nan16(b); val = half_f32(b); canon = 'f97e00'
+            elif k == 's':
+                nan = gen.is_nan32(b); val = b; canon = 'fa7fc00000'
+            else:
+                nan = is_nan64(b); val = b; canon = 'fb7ff8000000000000'
+            why = None
+            if w[0] != 'OK': why = 'a float head was not decoded into an item'
+            else:
+                got = int(w[1][2:-1]) if w[1][:2] == k + '(' else None
+                if got is None: why = 'decoded item is not a float of the recorded width'
+                elif nan:
+                    if not (gen.is_nan32(got) if k != 'd' else is_nan64(got)): why = 'a NaN pattern decoded into an item holding a non-NaN'
+                    elif ('ser=%d:%s' % (len(canon) // 2, canon)) not in o and not ('ser==' in o and l.split()[1] == canon): why = 'an item holding a NaN does not serialize as the canonical NaN of its width'
+                else:
+                    if got != val: why = 'the item does not hold exactly the value the bytes denote (bits %d, expected %d)' % (got, val)
+                    elif 'ser==' not in o: why = 'serializing the decoded item does not reproduce the original bytes'
+            if why: fails.append({'input': l, 'expected': 'item %s(%s) and identical bytes back (NaN: canonical)' % (k, 'NaN' if nan else val), 'observed': o[:200], 'why': why})
         # blocks of 65536 consecutive singles: C vs generated model digests (also runs cbor_encode_half on each under UBSan)
         step = 1 if tier == 'thorough' else 61
         his = sorted(set(range(0, 65536, step)) | {0, 0x0080, 0x3300, 0x3380, 0x3880, 0x477f, 0x4780, 0x7f80, 0x7fc0, 0x8000, 0xb300, 0xff80, 0xffff})
@@ -138,6 +171,7 @@ class C15(Prop):
 
     def replay(self, ctx, rp):
         l = rp['failure']['input']
+        if l.startswith('LOAD '): return [f for f in self.oracle('quick', ctx) if f['input'] == l]
         o, rc, _ = ctx.run_c([l])
         if rc != 0: return [dict(rp['failure'], observed='implementation aborted')]
         return [dict(rp['failure'], observed=o[0])] if o[0] != rp['failure'].get('expected') and not o[0].startswith(rp['failure'].get('expected', '\0')) else []
